@@ -112,7 +112,10 @@ func runReadFromSim(c *Ctx, ruleAlien, ruleMissing string, ruleSrcFailOpt ...str
 		tail = append(tail, str("Cdat")...)
 		tail = append(tail, k8(0), k8(0), k8(0), k8(2), ex.byteSym("j0"), ex.byteSym("j1"))
 		tail = append(tail, str("MTrk")...)
-		tail = append(tail, k8(0), k8(0), k8(0), k8(7), k8(0x05), k8(0xC2), pp, k8(0x00), k8(0xFF), k8(0x2F), k8(0x00))
+		// the second track starts with a sysex (whatever the reader remembers of the end of the previous track must not
+		// be applied to it), then a channel message under an explicit status
+		sx := data("s0")
+		tail = append(tail, k8(0), k8(0), k8(0), k8(12), k8(0x02), k8(0xF0), k8(0x02), sx, k8(0xF7), k8(0x05), k8(0xC2), pp, k8(0x00), k8(0xFF), k8(0x2F), k8(0x00))
 		segs := normSegs([]Seg{{Elems: head}, {Run: &Run{Src: "alienbody", Off: constTerm(0), Len: symTerm(Ls)}}, {Elems: tail}})
 		id := ex.newObj(st, &ArrayV{Elem: types.Typ[types.Uint8], Segs: segs}, nil)
 		total := st.Arith(addTok, st.Convert(L, 64, true), mkConst(int64(len(head)+len(tail)), 64, true), "")
@@ -219,7 +222,7 @@ func runReadFromSim(c *Ctx, ruleAlien, ruleMissing string, ruleSrcFailOpt ...str
 				msg   []Val
 			}{
 				{{0, []Val{k8(0x91), k1, v1}}, {0x10, []Val{k8(0xFF), k8(0x2F), k8(0x00)}}},
-				{{5, []Val{k8(0xC2), pp}}, {0, []Val{k8(0xFF), k8(0x2F), k8(0x00)}}},
+				{{2, []Val{k8(0xF0), sx, k8(0xF7)}}, {5, []Val{k8(0xC2), pp}}, {0, []Val{k8(0xFF), k8(0x2F), k8(0x00)}}},
 			}
 			for ti, t := range tracks {
 				ts, _ := t.(*SliceV)
